@@ -434,6 +434,7 @@ type runOpts struct {
 	workdir string
 	noSolve bool
 	keep    bool
+	noRetry bool
 	jobs    int
 	verbose bool
 }
@@ -531,6 +532,24 @@ func dischargeAll(res *FnResult, opts *runOpts) {
 		res.Vacuity = r.status
 	}()
 	wg.Wait()
+	// Second chance for timeouts: the first pass runs many solver processes side by side, and
+	// a query that needs a good part of its budget can lose it to scheduling. Obligations that
+	// timed out are tried once more, one at a time, with twice the budget and another seed. A
+	// genuinely failing obligation just costs this extra time.
+	retried := 0
+	for _, o := range res.Obls {
+		if o.Status != "unknown" || !strings.HasPrefix(o.Model, "timeout") || retried >= 6 || opts.noRetry {
+			continue
+		}
+		retried++
+		r := discharge(oblScript(res, o), dir, o.Name, 2*opts.timeout, opts.seed+1, false)
+		if r.status == "unsat" {
+			o.Status = "proved"
+			o.Solver = r.solver + "(retry)"
+			o.Time += r.time
+			o.Model = ""
+		}
+	}
 	if len(res.VacuousAt) > 0 {
 		sort.Strings(res.VacuousAt)
 		res.Vacuity = "unsat"
